@@ -556,6 +556,37 @@ Section AnalysisProofs.
         destruct (run_inv k _ _ c Hk IH Hc1) as (J1 & _). exact J1.
   Qed.
 
+  Lemma run_due k seen st c :
+    1 <= k -> Inv k seen st -> Due k st -> ok_container c -> Due k (run (Some k) st c).
+  Proof.
+    intros Hk HI HD [Hne Hbs]. unfold Analysis.run, Analysis.run_batches. apply final_due.
+    assert (Hebs : 1 <= eff_bs (Some k) (c_bs c)) by (apply eff_bs_pos; [exact Hk|exact Hbs]).
+    apply (fold_due k c _ _ _ Hk HI HD (batches_nonempty _ _ Hebs)).
+  Qed.
+
+  Lemma hist_due k hs :
+    1 <= k -> Forall (fun h => ok_container (fst h)) hs -> Due k (hist_seq (Some k) fresh hs).
+  Proof.
+    intros Hk. induction hs as [|[c o] hs IH] using rev_ind; intros Hall.
+    - unfold Due. cbn. lia.
+    - apply Forall_app in Hall. destruct Hall as [Hall Hc]. inversion Hc as [|? ? Hc1 _]; subst. cbn [fst] in Hc1.
+      specialize (IH Hall). pose proof (hist_inv k hs Hk Hall) as HI.
+      unfold Analysis.hist_seq in *. rewrite fold_left_app. cbn [fold_left].
+      destruct o as [j|]; unfold Analysis.run_h at 1; cbn [fst snd].
+      + destruct Hc1 as [Hne Hbs]. unfold Analysis.run_interrupted.
+        assert (Hebs : 1 <= eff_bs (Some k) (c_bs c)) by (apply eff_bs_pos; [exact Hk|exact Hbs]).
+        assert (Hne2 := batches_nonempty (c_rows c) _ Hebs).
+        rewrite <- (firstn_skipn j (batches_of (c_rows c) (eff_bs (Some k) (c_bs c)))) in Hne2.
+        apply Forall_app in Hne2. destruct Hne2 as [Hne2 _].
+        apply (fold_due k c _ _ _ Hk HI IH Hne2).
+      + apply (run_due k _ _ c Hk HI IH Hc1).
+  Qed.
+
+  Theorem no_overdue_point_with_interrupted_runs_thm : forall (k : nat) (hs : list (container * option nat)),
+    1 <= k -> Forall (fun h => ok_container (fst h)) hs ->
+    processed (hist_seq (Some k) fresh hs) < last_regular (cols (hist_seq (Some k) fresh hs)) + k.
+  Proof. intros k hs Hk Hall. exact (hist_due k hs Hk Hall). Qed.
+
   (* the convergence clauses for histories in which some run() calls raise on a later batch: an interrupted run contributes
      the batches processed before the failure, also to the bookkeeping; the columns appended before the failure stay *)
   Theorem convergence_with_interrupted_runs_thm : forall (k : nat) (hs : list (container * option nat)),
